@@ -1,3 +1,4 @@
 pub mod core;
+pub mod e2e;
 pub mod selstate;
 pub mod shell;
